@@ -268,6 +268,39 @@ def ctors(ctx, w, pm):
            'pretty_midi.%s(%s): %s' % (cls, ', '.join(params), '; '.join(bad)))
 
 
+def _reader_writes_anywhere(r, container):
+  """(fields, complete?) stored on the elements the reader adds to sequence.<container>, wherever the add is: either
+  `e = <seq>.<container>.add()` followed by attribute stores on e (also inside helpers the element is not passed to), or keyword
+  arguments of `<seq>.<container>.add(field=...)`.  complete? is False when an element escapes (is passed to a call / stored),
+  when `**kwargs` are used, or when no add was found."""
+  out, complete, found = set(), True, False
+  fns = [r.node] + [f.node for q, f in r.module.all_functions.items() if f.node is not r.node and
+                    any(isinstance(c, ast.Call) and (dotted(c.func) or '').split('.')[-1] == q.split('.')[-1] for c in ast.walk(r.node))]
+  for fn in fns:
+    for c in ast.walk(fn):
+      if not (isinstance(c, ast.Call) and isinstance(c.func, ast.Attribute) and c.func.attr == 'add' and norm_text(c.func.value).endswith('.' + container)):
+        continue
+      found = True
+      for k in c.keywords:
+        if k.arg is None:
+          complete = False
+        else:
+          out.add(k.arg)
+      par = U.parent(fn, c)
+      if isinstance(par, ast.Assign) and len(par.targets) == 1 and isinstance(par.targets[0], ast.Name):
+        v = par.targets[0].id
+        for st in U.walk_stmts(fn):
+          for tgt, _v, _o in U.store_targets(st):
+            if isinstance(tgt, ast.Attribute) and isinstance(tgt.value, ast.Name) and tgt.value.id == v:
+              out.add(tgt.attr)
+        for c2 in ast.walk(fn):
+          if isinstance(c2, ast.Call) and c2 is not c and any(isinstance(a, ast.Name) and a.id == v for a in list(c2.args) + [k.value for k in c2.keywords]):
+            complete = False      # the element is handed on: fields may be set elsewhere
+      elif not isinstance(par, ast.Expr):
+        complete = False
+  return out, complete and found
+
+
 def _reader_writes(r, container):
   """Schema fields the reader stores on elements added to sequence.<container>."""
   out = set()
@@ -314,6 +347,13 @@ def fields(ctx, w, r):
     wr = _writer_reads(w, cont)
     rd = _reader_writes(r, cont)
     ok = fs <= wr and fs <= rd
+    # location-independent: every add of this container in the reader (and the helpers it calls) is found, none of the elements
+    # escapes, and a field the round trip needs is stored by none of them
+    rd2, complete = _reader_writes_anywhere(r, cont)
+    if complete and not fs <= rd2:
+      ctx.ob('FIELDS/' + cont, r, r.node, False, 'the reader never stores %s on the %s it creates (it stores %s): after a round trip these fields have their default value, so e.g. a '
+             'drum instrument\'s events are no longer grouped with its notes' % (sorted(fs - rd2), cont, sorted(rd2)), construct='%s: field coverage' % cont, definite=True)
+      continue
     ctx.ob('FIELDS/' + cont, w, w.node, ok, 'writer reads and reader restores %s' % sorted(fs) if ok else
            '%s: the writer reads %s and the reader writes %s; the round trip needs %s on both sides (missing: writer %s, reader %s)' % (
                cont, sorted(wr), sorted(rd), sorted(fs), sorted(fs - wr), sorted(fs - rd)), construct='%s: field coverage' % cont, depends=[r])
